@@ -10,7 +10,8 @@ PROP = "C01"
 MODULE = "OpnVerif.Props.C01"
 GRAN = "1:-10"
 FOLLOW = ["total", "tell", "tracks", "songs", "meta", "tickall 300 " + GRAN, "atend", "seek 1:-1", "tickall 200 " + GRAN, "selectsong -1", "selectsong 1", "selectsong 100",
-          "rewind", "playlog 20000 1024", "seek 5:0", "rewind", "loop 1", "loopcount 2", "tickall 30 " + GRAN, "loop 0", "meta", "total"]
+          "rewind", "playlog 20000 1024", "seek 5:0", "rewind", "loop 1", "loopcount 2", "tickall 30 " + GRAN, "seek 1:-2", "tickall 60 " + GRAN, "seek 3:-1", "tickall 60 " + GRAN,
+          "rewind", "loop 0", "meta", "total"]
 
 
 def rng_pick(ctx):
@@ -23,6 +24,9 @@ def images(ctx):
     out = []          # (kind, bytes)
     for img in gen_smf.tail_cases():
         out.append(("smf-tail", img))
+    sp = gen_smf.special_cases()
+    for img in (rng.sample(sp, 40) if quick else sp):
+        out.append(("smf-special", img))
     for i in range(18 if quick else 60):
         song = gen_smf.gen_song(rng, loops="stack" if i % 3 == 2 else None, ntracks=rng.choice([2, 3]) if i % 3 == 2 else None)
         img = song.encode(running_status=rng.random() < 0.5, drop_eot=(0,) if rng.random() < 0.2 else ())
@@ -45,6 +49,10 @@ def images(ctx):
         out.append(("xmi-valid", xmi))
         for m in gen_mus.mutate(rng, xmi, 4 if quick else 10):
             out.append(("xmi-mutated", m))
+        xl = gen_mus.gen_xmi(rng, loops=True)
+        out.append(("xmi-loops", xl))
+        for m in gen_mus.mutate(rng, xl, 1 if quick else 4):
+            out.append(("xmi-loops-mutated", m))
     # detectors of the formats the synthesizer refuses (CMF / IMF / EA-MUS) and noise
     for i in range(24 if quick else 100):
         n = rng.choice([14, 15, 16, 40, 100, 400])
@@ -53,6 +61,16 @@ def images(ctx):
         out.append(("detectors", (head + body)[:max(n, 14)]))
         if i % 4 == 0:
             out.append(("short", (head + body)[:rng.randrange(0, 14)]))
+    # CMF and RSXX headers with readable tables and a music offset inside, at and beyond the end of the file
+    for i in range(6 if quick else 30):
+        n = rng.choice([40, 71, 200])
+        for off in (rng.randrange(20, n), n, n + 1, 0x0400, 0xFFFF):
+            ins_off = rng.choice([40, 36, n - 16, n + 5])
+            hdr = b"CTMF" + struct.pack("<HHHHH", 0x0101, ins_off, off, rng.choice([0, 1, 96, 0xFFFF]), rng.choice([0, 1, 96])) + bytes(6)
+            hdr = hdr[:20] + bytes(16) + struct.pack("<HH", rng.choice([0, 1, 2]), rng.choice([0, 120]))
+            out.append(("cmf-offsets", (hdr + bytes(rng.choice([0, 0x90, 0x3c, 0x7F, 0xFF, 0x2F]) for _ in range(n)))[:n]))
+        k = rng.choice([4, 0x10, 0x50, 0x7D])
+        out.append(("rsxx-offsets", bytes([k]) + bytes(rng.randrange(256) for _ in range(rng.choice([20, 100, 300])))))
     return out
 
 
@@ -78,7 +96,8 @@ def run(tier, replay=None):
             if len(group) == 4 or k == len(imgs) - 1:
                 h = list(sq.PREFIX) + ["usage"]
                 for (kd, im) in group:
-                    h += ["opendata " + im.hex()] + FOLLOW + ["selectsong %d" % rng_pick(ctx)] + ["usage"]
+                    # a third of the files goes through opn2_openFile (FILE-based reader) instead of opn2_openData
+                    h += [("openfiledata " if ctx.rng.random() < 0.33 else "opendata ") + im.hex()] + FOLLOW + ["selectsong %d" % rng_pick(ctx)] + ["usage"]
                 hs.append((h, "+".join(sorted(set(kd for kd, _ in group))), sum(len(im) for _, im in group)))
                 group = []
     res = sq.run([h for h, _, _ in hs], timeout=2400, batch=8)
@@ -91,12 +110,12 @@ def run(tier, replay=None):
         for k, r in enumerate(io):
             if r.startswith("fault=") or r.startswith("skipped"):
                 # the file that was being processed
-                j = max((x for x in range(k + 1) if h[x].startswith("opendata")), default=None)
+                j = max((x for x in range(k + 1) if h[x].startswith(("opendata", "openfiledata"))), default=None)
                 fails.append(("crash, memory error, abort or hang during %r after loading: %s" % (h[k][:40], r[:160]), j, k)); break
         usage = [(k, re.search(r"cpu_ms=(\d+) rss_kb=(\d+)", r)) for k, r in enumerate(io) if h[k] == "usage" and k < len(io)]
         usage = [(k, int(m.group(1)), int(m.group(2))) for k, m in usage if m]
         for (k0, ms0, kb0), (k1, ms1, kb1) in zip(usage, usage[1:]):
-            j = next((x for x in range(k0, k1) if h[x].startswith("opendata")), None)
+            j = next((x for x in range(k0, k1) if h[x].startswith(("opendata", "openfiledata"))), None)
             if j is None:
                 continue
             n = len(h[j].split()[1]) // 2
